@@ -73,11 +73,13 @@ func bindProgramX(ifk, impl, conc, how, nI, nC int, noBinding bool, depth, order
 		}
 		concT = iface
 	case 4:
-		// a wider interface W embedding I, provided by a function
-		if conc == 1 || how != 0 {
+		// a wider interface W embedding I, provided by a function, an interface value, an injector parameter or
+		// a field, or only in the enclosing call / a sibling set
+		if conc == 1 || how == 1 {
 			return nil
 		}
 		concT = b.Iface(p, "W", iface)
+		named.Impls = []*ir.Type{concT}
 	}
 	if concT == nil {
 		if conc == 1 {
@@ -95,7 +97,11 @@ func bindProgramX(ifk, impl, conc, how, nI, nC int, noBinding bool, depth, order
 	case 1:
 		concItems = []*ir.Item{ir.StructItem(named, "*"), ir.FuncItem(&ir.Func{Pkg: p, Name: "PX", Out: x})}
 	case 2:
-		concItems = []*ir.Item{ir.ValueItem(concT, 9001)}
+		if concT.Strip().Kind == ir.KIface {
+			concItems = []*ir.Item{ir.IfaceValueItem(concT, named, 9001)}
+		} else {
+			concItems = []*ir.Item{ir.ValueItem(concT, 9001)}
+		}
 	case 3:
 		params = []ir.Param{{Name: "c", T: concT}}
 	case 4:
